@@ -88,6 +88,65 @@ def extract(f):
     out["h_mono"] = hs.pop()
     Fn = [s["name"] for s in newton]
     out["F"] = Fn
+    # ---- roles by dataflow (not by the names the source happens to use): z_j = buffer the j-th Newton stage evaluation
+    # writes; f_j = buffer that accumulates z_j (`f_j[i] += z_j[i]`); e1 / (e2r, e2i) = matrices handed to the real /
+    # complex factorisation. Everything below speaks about the canonical role names.
+    role = {}
+    for j, s_ in enumerate(newton):
+        o = s_.get("out")
+        if o and o[0] == "key":
+            role[o[1]] = "z%d" % (j + 1)
+    body = f.body(FN)["body"]
+    for a_ in tast.find(body, lambda z: z.get("k") == "AssignOp" and z.get("op", "").startswith("Add") and z["l"].get("k") == "Index" and z["r"].get("k") == "Index"
+                        and z["l"]["e"].get("k") == "Path" and z["r"]["e"].get("k") == "Path"):
+        src = role.get(a_["r"]["e"].get("id"))
+        if src and src.startswith("z") and a_["l"]["e"].get("id") not in role:
+            role[a_["l"]["e"]["id"]] = "f" + src[1]
+    for c_ in tast.find(body, lambda z: z.get("k") == "Call" and (z.get("def") or "").endswith(("::lu_decomp", "::lu_decomp_complex"))):
+        mats = []
+        for a_ in c_["args"]:
+            e_ = a_
+            while e_.get("k") in ("AddrOf", "Unary"):
+                e_ = e_["e"]
+            if e_.get("k") == "Path" and "Matrix" in (e_.get("ty") or ""):
+                mats.append(e_["id"])
+        if c_["def"].endswith("::lu_decomp") and len(mats) == 1:
+            role[mats[0]] = "e1"
+        elif c_["def"].endswith("::lu_decomp_complex") and len(mats) == 2:
+            role[mats[0]], role[mats[1]] = "e2r", "e2i"
+    for c_ in tast.find(body, lambda z: z.get("k") == "MethodCall" and z.get("def") in ("ivp::IVP::mass", "ivp::IVP::jac")):
+        for a_ in c_["args"]:
+            e_ = a_
+            while e_.get("k") in ("AddrOf", "Unary"):
+                e_ = e_["e"]
+            if e_.get("k") == "Path" and "Matrix" in (e_.get("ty") or ""):
+                role[e_["id"]] = "mass" if c_["def"].endswith("::mass") else "jac"
+    need = {"z1", "z2", "z3", "f1", "f2", "f3", "e1", "e2r", "e2i", "mass", "jac"}
+    if set(role.values()) != need:
+        out["problems"].append("could not identify the Newton buffers by dataflow (found roles %s)" % sorted(set(role.values())))
+        return out
+    src_of = {r_: sx.names.get(k_, k_) for k_, r_ in role.items()}
+    import re as _re
+    pats = [(_re.compile(r"(?<![A-Za-z0-9_])%s(?![A-Za-z0-9_])" % _re.escape(src_of[r_])), r_) for r_ in sorted(src_of)]
+
+    def ca(a):
+        """atom name with the source names of the Newton buffers replaced by their role names"""
+        tmp = a
+        marks = {}
+        for i_, (rx, r_) in enumerate(pats):
+            tmp = rx.sub("\x00%d\x00" % i_, tmp)
+            marks[i_] = r_
+        for i_, r_ in marks.items():
+            tmp = tmp.replace("\x00%d\x00" % i_, r_)
+        return tmp
+    out["ca"] = ca
+    out["role"] = role
+
+    class _Names(dict):
+        def get(self_, k, default=None):
+            return role.get(k, dict.get(self_, k, default))
+    names = _Names(sx.names)
+    out["names"] = names
     zk = {n: k for k, n in names.items() if n in ("z1", "z2", "z3", "f1", "f2", "f3")}
     stores = [ev for ev in sx.trace if ev["kind"] == "store"]
     # (a) TI as applied: first stores to z1..z3 that are combinations of the three stage atoms only
@@ -113,7 +172,7 @@ def extract(f):
                     arg = DEFS[sums[0]][1][0]
                     which = None
                     for j, fb in enumerate(("f1", "f2", "f3")):
-                        if any(a.startswith(fb + "~") or a.startswith("phi~" + fb) for a in arg.atoms()):
+                        if any(ca(a).startswith(fb + "~") or ca(a).startswith("phi~" + fb) for a in arg.atoms()):
                             which = j
                     neg = all(c2 < 0 for c2 in arg.t.values())
                     rest = tuple((a, e) for a, e in m if a != sums[0])
@@ -128,14 +187,14 @@ def extract(f):
         if nm in ("z1", "z2", "z3") and isinstance(ev["value"], Poly):
             v = ev["value"]
             at = v.atoms()
-            if at and all(a.startswith(("f1~", "f2~", "f3~", "z1~call", "z2~call", "z3~call", "phi~f")) for a in at):
+            if at and all(ca(a).startswith(("f1~", "f2~", "f3~", "z1~call", "z2~call", "z3~call", "phi~f")) for a in at):
                 row = [Fraction(0)] * 3
                 good = True
                 for m, cf in v.t.items():
                     if len(m) != 1:
                         good = False
                         break
-                    a = m[0][0]
+                    a = ca(m[0][0])
                     j = {"f1": 0, "f2": 1, "f3": 2, "z1": 0, "z2": 1, "z3": 2}.get(a[:2])
                     if a.startswith("phi~f"):
                         j = int(a[5]) - 1
@@ -152,8 +211,9 @@ def extract(f):
     # (e) E1/E2 assembly
     asg = []
     for ev in sx.trace:
-        if ev["kind"] == "assign" and ev["node"]["l"].get("k") == "Index" and ev["node"]["l"]["e"].get("k") == "Path" and ev["node"]["l"]["e"].get("name") in ("e1", "e2r", "e2i"):
-            asg.append((ev["node"]["l"]["e"]["name"], ev["value"]))
+        lv = ev.get("lv") if ev["kind"] == "assign" else None
+        if lv and len(lv) > 1 and role.get(lv[1]) in ("e1", "e2r", "e2i"):
+            asg.append((role[lv[1]], ev["value"]))
     out["E"] = asg
     return out
 
@@ -236,9 +296,9 @@ def r_radau_const(rep, f):
         if not isinstance(v, Poly):
             continue
         for m, cf in v.t.items():
-            if any(a.startswith("idx[") and "mass" in a for a, e in m):
+            if any(a.startswith("idx[") and "mass" in ex["ca"](a) for a, e in m):
                 seen[nm] = D(cf)
-        seen.setdefault(nm + ":jac", any(any(a.startswith("idx[") and "jac" in a for a, e in m) and cf == -1 for m, cf in v.t.items()))
+        seen.setdefault(nm + ":jac", any(any(a.startswith("idx[") and "jac" in ex["ca"](a) for a, e in m) and cf == -1 for m, cf in v.t.items()))
     probs = []
     for nm, w in want.items():
         if nm not in seen:
@@ -265,8 +325,8 @@ def r_radau_const(rep, f):
         got_w = [Decimal(0)] * 3
         for m, cf in ef.t.items():
             for a, e in m:
-                if a.startswith(("f1~", "f2~", "f3~")) and e == 1:
-                    got_w[int(a[1]) - 1] = D(cf)
+                if ex["ca"](a).startswith(("f1~", "f2~", "f3~")) and e == 1:
+                    got_w[int(ex["ca"](a)[1]) - 1] = D(cf)
         worst = max(abs(g - w) for g, w in zip(got_w, want_w))
         if worst <= TOL * 100:
             rep.ok(key0, key, "error-estimate weights are (-13-7*sqrt6)/3, (-13+7*sqrt6)/3, -1/3 (max residual %.2e)" % worst)
@@ -307,13 +367,14 @@ def r_radau_dense(rep, f, ex=None, rule="R-AFF-COLLOC"):
                 return
     uu = u.subst(mapping)
     # Z_i as stored by the back-transformation (last stores to z1..z3), y_new
-    names = sx.names
+    names = ex["names"]
+    ca = ex["ca"]
     Z = {}
     for ev in sx.trace:
         if ev["kind"] == "store" and names.get(ev["key"]) in ("z1", "z2", "z3") and isinstance(ev["value"], Poly):
             at = ev["value"].atoms()
-            if at and all(a.startswith(("f1~", "f2~", "f3~", "z1~call", "z2~call", "z3~call", "phi~f")) for a in at):
-                Z[names[ev["key"]]] = ev["value"]
+            if at and all(ca(a).startswith(("f1~", "f2~", "f3~", "z1~call", "z2~call", "z3~call", "phi~f")) for a in at):
+                Z[names.get(ev["key"])] = ev["value"]
     if len(Z) != 3:
         rep.inconc(rule, rule + ":radau:Z", "stage increments not found")
         return
